@@ -176,9 +176,9 @@ FAILSTOP = -1
 
 
 class Stopper(System):
-    def __init__(self, model, stop, d, fail):
+    def __init__(self, model, stop, d, fail, burn=-1, recargs=None):
         super().__init__("stopper", model, priority=0)
-        self.stop, self.d, self.fail = stop, d, fail
+        self.stop, self.d, self.fail, self.burn, self.recargs = stop, d, fail, burn, recargs
 
     def execute(self):
         t = self.model.systems.timestep
@@ -187,6 +187,11 @@ class Stopper(System):
                 time.sleep(self.d / 1000.0)
             if self.fail:
                 raise Boom()
+        if t == self.burn and self.recargs is not None:
+            # end of the burn-in phase: the collector registered as "c1" is discarded, a fresh one takes its name from the next step on
+            sig, cfreq = self.recargs
+            self.model.systems.remove_system("c1")
+            self.model.systems.add_system(Rec("c1", self.model, sig, t + 1, cfreq))
         if t == self.stop:
             self.model.complete()
 
@@ -201,13 +206,13 @@ class Rec(Collector):
 
 
 class BatchModel(Model):
-    def __init__(self, stop=3, cstart=0, cfreq=1, d=0):
+    def __init__(self, stop=3, cstart=0, cfreq=1, d=0, burn=-1):
         super().__init__()
         fail = stop == FAILSTOP
         if fail and d % 2 == 1:
             raise Boom()
         sig = 1000 * stop + 100 * cstart + 10 * cfreq + d
-        self.systems.add_system(Stopper(self, stop, d, fail))
+        self.systems.add_system(Stopper(self, stop, d, fail, burn, (sig, cfreq)))
         self.systems.add_system(Rec("c1", self, sig, cstart, cfreq))
         self.systems.add_system(Rec("c2", self, sig, cstart, cfreq + 1))
 
@@ -242,7 +247,10 @@ def run_batch(prog):
         else:
             params = {n: list(v) for n, v in grid}
             if procs % 2 == 0:
+                sibling = ParameterList(params)          # another list declared from the same dictionary ...
                 params = ParameterList(params)
+                sibling.add_parameter("zz", [1, 2])      # ... is edited: must not show in this one
+                sibling.remove_parameter(grid[0][0])
         exc = None
         res = []
         try:
@@ -265,6 +273,8 @@ def random_batch_program(rng, procs_choices, fail=None):
         grid.append(["cstart", rng.sample([0, 1, 2], rng.randint(1, 2))])
     if rng.random() < 0.4:
         grid.append(["cfreq", rng.sample([1, 2], rng.randint(1, 2))])
+    if rng.random() < 0.3:
+        grid.append(["burn", rng.sample([0, 1, 2], rng.randint(1, 2))])
     grid.append(["d", rng.sample([0, 1, 2, 4, 7], rng.randint(1, 2))])
     rng.shuffle(grid)
     reps = rng.choice([1, 1, 2, 3])
@@ -321,8 +331,8 @@ TABLE = {}
 COUNT = {}
 SLOW_FIRST = False
 SCALE = "1"
-SCALES = {"1": 1, "q": 0.25, "big": 2 ** 61, "qoff": 0.25}
-OFFSETS = {"qoff": float(2 ** 40)}      # large magnitude, small spread: only used with the (shift-invariant) variance modes
+SCALES = {"1": 1, "q": 0.25, "big": 2 ** 61, "qoff": 0.25, "ioff": 1}
+OFFSETS = {"qoff": float(2 ** 40), "ioff": 10 ** 18}     # ioff: integer scores 10**18 + s (MIN / MAX / SUM modes: exact integers)      # large magnitude, small spread: only used with the (shift-invariant) variance modes
 MODES = {"MIN": ScoreMode.MIN, "MAX": ScoreMode.MAX, "MIN_MEAN": ScoreMode.MIN_MEAN, "MAX_MEAN": ScoreMode.MAX_MEAN,
          "MIN_SUM": ScoreMode.MIN_SUM, "MAX_SUM": ScoreMode.MAX_SUM, "MIN_VARIANCE": ScoreMode.MIN_VARIANCE,
          "MAX_VARIANCE": ScoreMode.MAX_VARIANCE}
@@ -386,7 +396,10 @@ def run_search(prog):
                 params = [[str(k), int(v)] for k, v in r.items() if k not in ("records", "score")]
                 recs = [_exact_int((Fraction(x) - Fraction(OFFSETS.get(scale, 0))) / Fraction(sc)) for x in r["records"]]
                 norm = Fraction(sc) ** 2 if "VARIANCE" in mode else Fraction(sc)
-                score = _exact_int(Fraction(r["score"]) / norm * K)
+                shift = 0
+                if scale == "ioff":      # the aggregate of shifted scores: n * offset for a sum, the offset itself for min / max
+                    shift = OFFSETS["ioff"] * (n if "SUM" in mode else 1)
+                score = _exact_int((Fraction(r["score"]) - shift) / norm * K)
                 report.append({"params": params, "records": recs, "score": score})
             best = next((i + 1 for i, r in enumerate(results) if r is b), 0)
         except Exception as e:  # noqa: BLE001
@@ -405,6 +418,8 @@ def search_programs_from_tables(tables, modes, procs_choices, scales, rng, grid=
             if "VARIANCE" in mode and reps < 2:
                 continue
             sc = rng.choice(scales + ["qoff", "qoff"]) if "VARIANCE" in mode else rng.choice(scales)
+            if mode in ("MIN", "MAX", "MIN_SUM", "MAX_SUM") and rng.random() < 0.3:
+                sc = "ioff"
             out.append([["grid_search", g, reps, mode, rng.choice(procs_choices), sc, t]])
     return out
 
